@@ -14,7 +14,7 @@ LEVEL = "exploration"
 META = {
     "engine": "model-monitor",
     "technique": "runtime monitor: documentSymbol and workspace/symbol answers compared with the block structure recorded by the program generator (gfortran-validated programs, random spacing / case / END spellings, nested constructs with decoys)",
-    "text": "Programs built from nested units, procedures with CONTAINS nesting, derived types with components and bindings, generic interfaces and bodies of DO / DO WHILE / named DO / IF-ELSE IF / SELECT CASE / BLOCK / ASSOCIATE constructs with keyword decoys in strings and comments are rendered with random indentation, keyword case and END spellings; every required outline entry must appear exactly once with admissible kind, container and the opening/END lines; workspace/symbol must satisfy required <= result <= allowed, contain the query case-insensitively and be sorted. Sampled program shapes; all substrings (len 1-4) of sampled names as queries.",
+    "text": "Programs built from nested units, procedures with CONTAINS nesting, derived types with components and bindings, generic interfaces and bodies of DO / DO WHILE / named DO / IF-ELSE IF / SELECT CASE / BLOCK / ASSOCIATE constructs with keyword decoys in strings and comments are rendered with random indentation, keyword case and END spellings; every required outline entry must appear exactly once with admissible kind, container and the opening/END lines; workspace/symbol must satisfy required <= result <= allowed, contain the query case-insensitively and be sorted. Sampled program shapes; all substrings (len 1-4) of sampled names as queries. The model writes glued/double-blank END TYPE and END INTERFACE, WHERE/FORALL, SELECT TYPE and arrays named like keywords.",
     "note": "trusted: the generator's line bookkeeping; kind families tolerate benign re-mapping (procedure {12,6}, type {5,23}, interface {11}, component {13,8,7}, binding {6,12}); extra outline entries are allowed unless they duplicate a required one",
 }
 RULE = ("generated workspaces x style variants; per file the documentSymbol list vs required nodes (unit, procedures/types/interfaces directly in a unit, "
